@@ -175,3 +175,11 @@ Definition C11_pin_1 : forall (gt : tdd -> tdd -> bool) op f g,
     (forall n, below n f -> below n g -> below n r) := C11_apply_bin.
 Definition C11_pin_2 : forall f g h a v,
   sc_denotes (ite_shortcut f g h) a = Some v -> v = ite3 (sem f a) (sem g a) (sem h a) := C11_ite_shortcuts.
+
+(** The bit-packed choices vector of [eval_edge] (two bits per level, sixteen
+    levels per u32 block, [(val << shift) | (block & !(0b11 << shift))]) reads
+    back exactly what the abstract level -> child map holds. *)
+Theorem C11_eval_packed : forall n f args,
+  below n f -> (forall l v, In (l, v) args -> l < n) -> eval_packed n f args = eval f args.
+Proof. exact eval_packed_eq. Qed.
+Print Assumptions C11_eval_packed.
